@@ -381,7 +381,9 @@ class Module(nn.Module):
             for name, param in local_state.items():
                 key = prefix + name
                 if key in state_dict:
-                    param.data = state_dict[key].data
+                    # take over the shape of the incoming tensor (its values are copied by the regular load);
+                    # not the tensor itself, which would tie this module to the state dict's (and its owner's) storage
+                    param.data = state_dict[key].data.clone()
 
     def _load_from_state_dict(
         self, state_dict, prefix, local_metadata, strict, missing_keys, unexpected_keys, error_msgs
